@@ -139,7 +139,10 @@ def delivery(tier, seed):
               "one tick after the grid and one long before; unsorted grid input with a duplicate; two consecutive episodes; "
               "non-trivial = distinct configuration", "6 grid points, <= 44 events, 2 episodes per configuration")
     for cfg in configs(tier, seed):
-        checks, info = run_config(cfg)
+        try:
+            checks, info = run_config(cfg)
+        except Exception as ex:
+            checks, info = [("episode_runs", False, {"error": "%s: %s" % (type(ex).__name__, str(ex)[:200])})], {}
         acc.case(tuple(sorted((k, str(v)) for k, v in cfg.items())), sample={"config": cfg, "info": info})
         acc.validated += 2
         for name, ok, detail in checks:
